@@ -143,6 +143,18 @@ static int c_to_produce, c_timeouts, c_okwaits, c_bound;
  * use staggered deadlines so that the head, middle nodes and the tail of a long wait-list time out while signals and
  * further enqueues (timed and untimed, ULT and external) are interleaved */
 static int c_many, c_nwait, c_nconsumers_left, c_maxwait;
+/* lost-signal accounting: "sure" waiters are inside an untimed wait or a timed wait whose deadline is out of reach; a
+ * signal issued by the holder of CM0 while such a waiter is not yet promised a wake-up must wake one (broadcast: all) */
+static int c_nsure, c_required, c_succ_sure;
+static void c_note_signal_under_mutex(int broadcast)
+{
+    int outstanding = c_required - c_succ_sure;
+    if (outstanding < 0)
+        outstanding = 0;
+    int avail = c_nsure - outstanding;
+    if (avail > 0)
+        c_required += broadcast ? avail : 1;
+}
 
 #define CCALL(opname, extra, expr)                                             \
     ({                                                                         \
@@ -185,9 +197,9 @@ static void cond_body(actor *a)
             c_holder--;
             if (sc_rnd(2)) { /* signal while holding the mutex ... */
                 if (sc_rnd(3))
-                    { ABT_OK(CCALL("signal", "", (c_sigseq++, ABT_cond_signal(C0)))); c_sigdone++; }
+                    { c_note_signal_under_mutex(0); ABT_OK(CCALL("signal", "", (c_sigseq++, ABT_cond_signal(C0)))); c_sigdone++; }
                 else
-                    { ABT_OK(CCALL("broadcast", "", (c_sigseq++, ABT_cond_broadcast(C0)))); c_sigdone++; }
+                    { c_note_signal_under_mutex(1); ABT_OK(CCALL("broadcast", "", (c_sigseq++, ABT_cond_broadcast(C0)))); c_sigdone++; }
                 cm_unlock(CM0, 0);
             } else { /* ... or after releasing it */
                 cm_unlock(CM0, 0);
@@ -219,7 +231,10 @@ static void cond_body(actor *a)
             int rc;
             if (++c_nwait > c_maxwait)
                 c_maxwait = c_nwait;
+            int sure = 0;
             if (!timed) {
+                sure = 1;
+                c_nsure++;
                 rc = CCALL("wait", "CM0", ABT_cond_wait(C0, CM0));
                 VSA_CHECK(rc == ABT_SUCCESS, "cond wait returned %d", rc);
             } else {
@@ -229,6 +244,12 @@ static void cond_body(actor *a)
                 if (c_many) /* staggered: a few clock reads apart, so that any position of the queue can expire first */
                     add = (long[]){ 4000, 9000, 15000, 25000, 40000, 80000, 200000, 3000000 }[sc_rnd(8)];
                 ts.tv_nsec += add;
+                if (!c_many && sc_rnd(4) == 0) {
+                    /* out of reach: only a jump of the virtual clock (nobody else can run) gets there */
+                    ts.tv_sec += 1000;
+                    sure = 1;
+                    c_nsure++;
+                }
                 while (ts.tv_nsec < 0)
                     ts.tv_nsec += 1000000000L, ts.tv_sec--;
                 while (ts.tv_nsec >= 1000000000L)
@@ -245,6 +266,11 @@ static void cond_body(actor *a)
             }
             VSA_CHECK(++c_holder == 1, "cond: wait returned without exclusive ownership of the mutex (%d holders)", c_holder);
             c_nwait--;
+            if (sure) {
+                c_nsure--;
+                if (rc == ABT_SUCCESS)
+                    c_succ_sure++;
+            }
             if (rc == ABT_SUCCESS) {
                 c_okwaits++;
                 VSA_CHECK(c_sigseq > seq, "cond: wait returned SUCCESS although every signal/broadcast issued so far had completed before it started (spurious wake-up)");
@@ -307,6 +333,9 @@ static void cond_teardown(void)
 {
     VSA_CHECK(c_tokens == 0 && c_holder == 0, "cond: %d tokens left, holder=%d", c_tokens, c_holder);
     VSA_CHECK(c_nwait == 0, "cond: %d consumers still counted inside a wait", c_nwait);
+    VSA_CHECK(c_succ_sure >= c_required,
+              "cond: %d signal(s)/broadcast wake-ups were owed to waiters that had released the mutex inside their wait, only %d "
+              "such waiters were woken (lost signal)", c_required, c_succ_sure);
     vs_note("cond stats okwaits=%d timeouts=%d maxwaiting=%d", c_okwaits, c_timeouts, c_maxwait);
     vs_unname(ABTI_cond_get_ptr(C0));
     ABT_OK(ABT_cond_free(&C0));
